@@ -240,12 +240,18 @@ def run(cfg):
                 break
         ob('R3', f.name, f.loc, okp and n >= 3, why or 'fewer than three orderings distinguished')
     f, s = summarize(lib, 'ace_time::ZonedDateTime::compareTo')
-    okp = False
+    okp, npaths, why = True, 0, 'does not delegate to mOffsetDateTime.compareTo(that.mOffsetDateTime)'
     for g, kind, res, eff in s.paths:
+        npaths += 1
         a = _atom(_P(res)) if res is not None else None
-        if a and a[0] == 'fn' and a[1].endswith('OffsetDateTime::compareTo') and len(a[2]) == 2:
-            okp = _atom(_P(a[2][0])) == ('sym', 'this.mOffsetDateTime') and _atom(_P(a[2][1])) == ('sym', f.params[0][0] + '.mOffsetDateTime')
-    ob('R3', f.name, f.loc, okp, 'does not delegate to mOffsetDateTime.compareTo(that.mOffsetDateTime)')
+        good = bool(a and a[0] == 'fn' and a[1].endswith('OffsetDateTime::compareTo') and len(a[2]) == 2 and
+                    _atom(_P(a[2][0])) == ('sym', 'this.mOffsetDateTime') and _atom(_P(a[2][1])) == ('sym', f.params[0][0] + '.mOffsetDateTime'))
+        if not good:
+            okp = False
+            why = ('a path (under %s) returns %s instead of mOffsetDateTime.compareTo(that.mOffsetDateTime): the order is then not the order '
+                   'of the instants (local fields of two offsets can order the other way round)' % (
+                       formula_str(g), repr(_P(res)) if res is not None else 'nothing'))
+    ob('R3', f.name, f.loc, okp and npaths >= 1, why)
     # R4 same instant
     f, s = summarize(lib, 'ace_time::ZonedDateTime::forEpochSeconds')
     es, tz = f.params[0][0], f.params[1][0]
@@ -322,6 +328,9 @@ SELFTEST = [
          find='        TimeOffset timeOffset = timeZone.getUtcOffset(epochSeconds);', replace='        TimeOffset timeOffset = timeZone.getUtcOffset(epochSeconds - 1);', rule='R4'),
     dict(id='floor-division-twin-differs', file='src/ace_time/LocalDate.h',
          find='            ? (epochSeconds + 1) / 86400 - 1', replace='            ? epochSeconds / 86400 - 1', rule='R5'),
+    dict(id='zoned-compare-same-zone-shortcut', file='src/ace_time/ZonedDateTime.h',
+         find='      return mOffsetDateTime.compareTo(that.mOffsetDateTime);',
+         replace='      if (mTimeZone == that.mTimeZone) return localDateTime().compareTo(that.localDateTime());\n      return mOffsetDateTime.compareTo(that.mOffsetDateTime);', rule='R3', construct='ZonedDateTime::compareTo'),
     dict(id='compareTo-else-chain-silent', file='src/ace_time/LocalDateTime.h',
          find='      if (thisSeconds < thatSeconds) return -1;\n      if (thisSeconds > thatSeconds) return 1;\n      return 0;',
          replace='      if (thisSeconds > thatSeconds) {\n        return 1;\n      } else if (thisSeconds == thatSeconds) {\n        return 0;\n      }\n      return -1;', expect='silent'),
